@@ -171,6 +171,54 @@ def run(chk):
                         chk.violation(f'plain-value-{col}', f'{col} differs from its stored value', dict(col=col))
         if box == 7:
             chk.sample(dict(box=box, vel=vel, row=rows[5], note='every column of the synthetic catalog carries this stored sample'))
+    # ---- thorough: random stored values and non-integer (BoxSize, VelZSpace_to_kms), judged by the twin of Value (validated above on the TLC grid)
+    if not chk.quick:
+        for rep in range(6):
+            box, vel = float(rng.choice([500.0, 2000.0, 7.25, 1.0])), float(rng.choice([1100.5, 1.0, 37.125, 3000.0]))
+            nr = 40
+            ov = {}
+            raws = {}
+            base = sc.raw_halo_columns(list(range(nr)))
+            for col, kind in kinds.items():
+                com = '_L2com' if col.endswith('_L2com') else ('_com' if col.endswith('_com') else '')
+                stem = col[: len(col) - len(com)] if com else col
+                if kind in ('Length', 'Velocity'):
+                    shp = base[col].shape
+                    ov[col] = rng.uniform(-0.5, 0.5, shp).astype(np.float32)
+                    if stem in ('r100', 'sigmav3d'):
+                        ov[col] = np.abs(ov[col])
+                elif kind in ('RatioLen', 'RatioBox'):
+                    ov[col + '_i16'] = rng.integers(-32768, 32768, base[col + '_i16'].shape).astype(np.int16)
+                elif kind == 'RatioVel':
+                    ov[stem.replace('Maj', 'Max') + '_to_sigmav3d' + com + '_i16'] = rng.integers(-22000, 22000, nr).astype(np.int16)
+            zd = sc.write_catalog(root, [[dict(nA=0, gA=0, mA=0, hA=0, nB=0, gB=0, mB=0, hB=0, away=False) for _ in range(nr)]], hdr=sc.header(BoxSize=box, VelZSpace_to_kms=vel), halo_overrides={0: ov})
+            for convert in (True, False):
+                H = cc.load(zd, cleaned=bool(rep % 2), convert_units=convert, fields='all').halos
+                b, v = (box, vel) if convert else (1.0, 1.0)
+                for col, kind in kinds.items():
+                    com = '_L2com' if col.endswith('_L2com') else ('_com' if col.endswith('_com') else '')
+                    stem = col[: len(col) - len(com)] if com else col
+                    if kind == 'Length':
+                        want = ov[col].astype(np.float64) * b
+                    elif kind == 'Velocity':
+                        want = ov[col].astype(np.float64) * v
+                    elif kind == 'RatioLen':
+                        r = ov['r100' + com].astype(np.float64)
+                        i16 = ov[col + '_i16'].astype(np.float64)
+                        want = i16 * (r[:, None] if i16.ndim > 1 else r) / 32000.0 * b
+                    elif kind == 'RatioBox':
+                        want = ov[col + '_i16'].astype(np.float64) / 32000.0 * b
+                    elif kind == 'RatioVel':
+                        want = ov[stem.replace('Maj', 'Max') + '_to_sigmav3d' + com + '_i16'].astype(np.float64) * ov['sigmav3d' + com].astype(np.float64) / 32000.0 * v
+                    else:
+                        continue
+                    got = np.asarray(H[col]).astype(np.float64)
+                    ncmp += nr
+                    if not np.allclose(got, want, rtol=3e-6, atol=1e-30):
+                        j = int(np.argwhere(~np.isclose(got, want, rtol=3e-6, atol=1e-30).reshape(nr, -1).all(axis=1))[0][0])
+                        chk.violation(f'units-{kind}-{stem}-{"on" if convert else "off"}-random', f'{col} (kind {kind}) BoxSize={box} VelZSpace_to_kms={vel} convert_units={convert}: loaded {got[j]!r}, expected {want[j]!r} (random stored values)',
+                                      dict(col=col, box=box, vel=vel, convert=convert))
+        chk.part('random_catalogs', comparisons=ncmp)
     # light-cone layout: unit kinds of the L2com columns + Plain light-cone columns
     halos = [dict(nA=1, gA=0) for _ in range(6)]
     dlc = sc.write_lightcone(root, halos, hdr=sc.header(BoxSize=7.0, VelZSpace_to_kms=1100.0, OutputType='LightCone'))
